@@ -103,6 +103,13 @@ impl<C: Config> Engine<C> {
             .read_owned()
             .await;
 
+        #[cfg(feature = "verif")]
+        qbice_storage::verif::task_point(
+            "tracked_after_lock",
+            qbice_storage::verif::PointKind::Preempt,
+        )
+        .await;
+
         let timestamp = Timestamp(
             self.computation_graph
                 .database
@@ -132,12 +139,26 @@ impl<C: Config> Engine<C> {
             .fetch_add(1, Ordering::SeqCst);
         let new_timestamp = prev + 1;
 
+        #[cfg(feature = "verif")]
+        qbice_storage::verif::task_point(
+            "session_after_bump",
+            qbice_storage::verif::PointKind::Preempt,
+        )
+        .await;
+
         self.computation_graph
             .database
             .sync
             .timestamp_map
             .insert((), Timestamp(new_timestamp), &mut write_buffer)
             .await;
+
+        #[cfg(feature = "verif")]
+        qbice_storage::verif::task_point(
+            "session_at_lock",
+            qbice_storage::verif::PointKind::Await,
+        )
+        .await;
 
         let guard = self
             .computation_graph
